@@ -901,6 +901,13 @@ pub fn check_c05(tier: &str) -> i32 {
                 paths.push(vec![Ev::Enable(0), Ev::ConnectOk, submit.clone(), Ev::ReplyStale(1), Ev::ReplyPartial(n), end, Ev::AdvanceToNext, Ev::ConnectOk, submit.clone(), Ev::ReplyOk]);
             }
         }
+        // a reply that straddles its request's deadline: the request times out, the rest of the frame
+        // arrives afterwards and is still the rest of *that* frame (then discarded by its id)
+        for n in 1..=12usize {
+            let short = Ev::Submit { handle: 0, style: MStyle::Future, timeout_ms: 5 };
+            paths.push(vec![Ev::Enable(0), Ev::ConnectOk, short.clone(), Ev::ReplyPartial(n), Ev::AdvanceToNext, Ev::ReplyRest, submit.clone(), Ev::ReplyOk]);
+            paths.push(vec![Ev::Enable(0), Ev::ConnectOk, short.clone(), Ev::ReplyPartial(n), Ev::AdvanceToNext, submit.clone(), Ev::ReplyRest, Ev::ReplyOk]);
+        }
         // a handle call (or a second request) processed by the client task between two reads of one
         // frame: the frame boundary must not move (the idle client selects between the reader and
         // its command queue, so the read is cancelled and resumed)
